@@ -20,6 +20,9 @@ pub enum Case {
     /// a signature made by the reference for (ks, id, msg, r), altered as `forge` says, must be refused
     /// (forge = "none" / "rerandomised-S" must be accepted)
     Verify { ks: String, id: String, msg_len: usize, r: String, forge: String },
+    /// master key N - H1(ID||01) + delta: for delta = 0 no signing key exists (extraction must report failure), for
+    /// delta = +-1 one exists and its signatures verify
+    NoKey { id: String, delta: i32 },
 }
 
 fn ident(spec: &str, seed: u64) -> Vec<u8> {
@@ -130,6 +133,24 @@ pub fn eval(ctx: &Ctx, case: &Case) {
             match guard(|| msk.verify_sign(&idb, &msg, &h, &s)) {
                 Guard::Done(Ok(())) => ctx.outcome(&format!("ok/sign/{}", tag)),
                 other => ctx.violation("Sm9SignMasterKey::verify_sign", &format!("own-signature-rejected/{}", tag), gdbg(&other), cj()),
+            }
+        }
+        Case::NoKey { id, delta } => {
+            let idb = ident(id, ctx.seed);
+            let h1 = sm9::h1(&idb, sm9::HID_SIGN);
+            let ks = ((n - &h1) + n + BigUint::from((*delta + 1) as u32) - 1u32) % n;
+            if ks.is_zero() {
+                return;
+            }
+            let (ppubs, _) = master(&ks);
+            let msk = lib_master(&ks, &ppubs);
+            ctx.call();
+            ctx.trace();
+            let want_some = sm9::extract_sign_key(&ks, &idb).is_some();
+            match guard(|| msk.extract_key(&idb)) {
+                Guard::Done(k) if k.is_some() == want_some => ctx.outcome(&format!("ok/extract/H1+ks={}", delta)),
+                Guard::Done(k) => ctx.violation("Sm9SignMasterKey::extract_key", &format!("failure-reporting/H1+ks={}", delta), format!("ks={} got={} want={}", hexbig(&ks), if k.is_some() { "Some" } else { "None" }, if want_some { "Some" } else { "None" }), cj()),
+                Guard::Panic(p) => ctx.violation("Sm9SignMasterKey::extract_key", &format!("panic/{}", panic_site(&p)), p, cj()),
             }
         }
         Case::Verify { ks, id, msg_len, r, forge } => {
@@ -247,6 +268,11 @@ pub fn run(ctx: &Arc<Ctx>) {
     for id in ids {
         for ml in mlens {
             cases.push(Case::Sign { ks: ANNEX_KS.into(), id: id.into(), msg_len: ml, r: ANNEX_R.into(), tag: format!("id={}/mlen={}", if id.starts_with("len:") { id } else { "text" }, ml) });
+        }
+    }
+    for id in ["Alice", "Bob", ""] {
+        for delta in [-1i32, 0, 1] {
+            cases.push(Case::NoKey { id: id.into(), delta });
         }
     }
     // identities whose H1 is extreme: the largest and the smallest of 400 candidates and one above 2^257/3 (the
